@@ -785,6 +785,8 @@ fn hand_cases(rep: &mut Report) {
             cases.push(("extension-group".into(), format!("{k}|{kw}"), format!("Mh DEFINITIONS AUTOMATIC TAGS ::= BEGIN\nGh ::= {kw} {{ {body} }}\nEND\n")));
         }
     }
+    // a module-qualified reference to a type of a module this one has no IMPORTS clause for
+    cases.push(("qualified-reference-without-imports".into(), "component".into(), "Mh DEFINITIONS AUTOMATIC TAGS ::= BEGIN\nQh ::= SEQUENCE { fq1 Mq2.Tq20 }\nEND\nMq2 DEFINITIONS AUTOMATIC TAGS ::= BEGIN\nTq20 ::= INTEGER\nEND\n".into()));
     for (family, key, src) in cases {
         let run = comp::ts(&[src.clone()]);
         rep.evaluations += 1;
@@ -827,6 +829,22 @@ fn hand_cases(rep: &mut Report) {
                 match find("Ch") {
                     Some(Decl::Type(Ty::Union(v))) if v.len() == 2 => {}
                     other => bad.push(format!("Ch: expected a union of two single-key objects, found {other:?}")),
+                }
+            }
+            "qualified-reference-without-imports" => {
+                // every type name mentioned is declared in the namespace, imported, or namespace-qualified and declared there
+                if let Some(Decl::Type(t)) = find("Qh") {
+                    let mut used = BTreeSet::new();
+                    names_in(t, &mut used);
+                    let declared: BTreeSet<String> = ns.decls.iter().map(|d| d.0.clone()).chain(ns.imports.iter().map(|i| i.0.clone())).collect();
+                    for u in used {
+                        let ok = BUILTINS.contains(&u.as_str()) || declared.contains(&u) || (u.contains('.') && nss.iter().any(|o| Some(o.name.as_str()) == u.split('.').next() && o.decls.iter().any(|x| Some(x.0.as_str()) == u.split('.').nth(1))));
+                        if !ok {
+                            rep.violations.push(Violation { sig: "c18|unresolved-type-name|module-qualified-reference-without-imports".into(), what: format!("Mh.Qh mentions `{u}`, which is neither declared in the namespace, nor imported, nor qualified [{origin}]"), replay: json!({"origin": origin, "sources": [src.clone()]}) });
+                        }
+                    }
+                } else {
+                    bad.push(format!("Qh: expected a type declaration, found {:?}", find("Qh")));
                 }
             }
             "empty-list-value" => {
